@@ -63,13 +63,11 @@ impl Quil for CircuitDefinition {
         }
         writeln!(writer, ":")?;
         for instruction in &self.instructions {
-            let lines = match fall_back_to_debug {
-                true => instruction.to_quil_or_debug(),
-                false => instruction.to_quil()?,
-            };
-            for line in lines.split('\n') {
-                writeln!(writer, "{INDENT}{line}")?;
-            }
+            // Write the instruction as it is: its text may contain line breaks of its own (inside
+            // a string literal), which must not be re-indented.
+            write!(writer, "{INDENT}")?;
+            instruction.write(writer, fall_back_to_debug)?;
+            writeln!(writer)?;
         }
 
         Ok(())
